@@ -105,5 +105,5 @@ def run(ctx):
                '_cached_css_compile lru_cache bypassed for symbolic patterns (cannot be hashed)',
                'util.lower lru_cache bypassed (pure function)',
                'CrossHair 0.0.110 models (with vlib/chfix.py) trusted for "exhaustive"; counterexamples replayed')
-    escape_lemmas(ctx)
+    ctx.lemma(escape_lemmas, 'escape_lemmas')
     ctx.run_e1('harness.c06', CONDS, FUNCS)
